@@ -14,6 +14,7 @@ mod poolgen;
 mod votor;
 mod c01;
 mod c09;
+mod c10;
 mod c20;
 mod c19;
 mod c11;
@@ -148,6 +149,8 @@ fn real_main() {
     }
     match args[1].as_str() {
         "params" => print!("{}", params::params()),
+        // C10: run the cluster scenarios on their own (C10_SCENARIO=1..4) and print what happened
+        "probe10" => c10::probe(),
         "gen" => {
             let id = args[2].as_str();
             let tier = if args[3] == "thorough" { Tier::Thorough } else { Tier::Quick };
@@ -169,6 +172,7 @@ fn real_main() {
                 "C19" => c19::gen_c19(seed, tier),
                 "C20" => c20::gen_c20(seed, tier),
                 "C01" => c01::gen_c01(seed, tier),
+                "C10" => c10::gen_c10(seed, tier),
                 "C15" => c15::generate(seed, tier),
                 "C17" => c17::gen_c17(seed, tier),
                 "C16" => c16::gen_c16(seed, tier),
